@@ -11,6 +11,8 @@ CONSTANTS
   MaxAt = 1
   ExpmDopModes <- Repaired
   Solve2Modes <- Solve2Pinned
+  Progbars <- PbOff
+  Progbar0Modes <- PbOK
   PrintCases = FALSE
 INVARIANT SupportedAccepted
 CHECK_DEADLOCK FALSE
